@@ -56,6 +56,9 @@ typedef struct {
     int site;
     const void *ctx;
     int pos;
+    int nper;
+    uint64_t sig[8]; /* signatures of the last periods, newest first */
+    int start[8];    /* log position where each of them started */
 } siteent;
 
 typedef struct cthr {
@@ -126,8 +129,11 @@ static void finish(int status, const char *key, const char *fmt, va_list ap)
         if (fmt)
             vsnprintf(xr->msg, sizeof(xr->msg), fmt, ap);
         uint64_t th = 0;
-        for (int i = 0; i < nthr; i++)
+        for (int i = 0; i < nthr; i++) {
             th = abtmc_mix(th, T[i].h);
+            xr->thash[i] = T[i].h;
+            xr->tops[i] = (uint64_t)T[i].loglen;
+        }
         xr->tracehash = th;
         __atomic_store_n(&xr->status, status, __ATOMIC_SEQ_CST);
     }
@@ -387,7 +393,7 @@ static int handle_stall(void)
     for (int i = 0; i < nthr; i++)
         if (T[i].st == ST_RUN && T[i].wk == W_SPIN)
             any = 1;
-    if (any && forced_rounds < 3) {
+    if (any && forced_rounds < 4) {
         forced_rounds++;
         for (int i = 0; i < nthr; i++)
             if (T[i].st == ST_RUN && T[i].wk == W_SPIN)
@@ -761,10 +767,30 @@ static cthr *libc_point(int tag, const void *obj)
 
 /* ---------------------------------------------------------- spin hints */
 
-static int site_is_tight(int site)
+/* A thread that calls abtmc_spin_hint(site, ctx) once per iteration of a wait
+ * loop is put to sleep ("spin-blocked") when it demonstrably goes round in
+ * circles: the sequence of hooked accesses (address, kind, value) of its last
+ * k periods equals that of the k periods before (k = 1..CYCMAX: a scheduler
+ * loop rotating through k yielding ULTs has period k), and everything it
+ * wrote during the cycle has been restored.  It is woken when any location it
+ * read during the cycle holds a different value (or the virtual clock moved,
+ * if it read the clock). */
+#define CYCMAX 4
+
+static uint64_t period_signature(cthr *t, int from, int to)
 {
-    (void)site;
-    return 0;
+    uint64_t h = 0x51;
+    for (int i = from; i < to; i++) {
+        logent *e = &t->log[i];
+        if (e->isclock) {
+            h = abtmc_mix(h, 0xc10c);
+            continue;
+        }
+        h = abtmc_mix(h, (uint64_t)(uintptr_t)e->addr);
+        h = abtmc_mix(h, ((uint64_t)e->size << 8) | e->wrote);
+        h = abtmc_mix(h, e->after);
+    }
+    return abtmc_mix(h, (uint64_t)(to - from));
 }
 
 void abtmc_spin_hint(int site, const void *ctx)
@@ -772,7 +798,6 @@ void abtmc_spin_hint(int site, const void *ctx)
     if (!abtmc_g.active)
         return;
     cthr *t = self();
-    (void)site_is_tight;
     siteent *s = NULL;
     for (int i = 0; i < t->nsites; i++)
         if (t->sites[i].site == site && t->sites[i].ctx == ctx)
@@ -785,19 +810,41 @@ void abtmc_spin_hint(int site, const void *ctx)
             t->nsites--;
         }
         s = &t->sites[t->nsites++];
+        memset(s, 0, sizeof(*s));
         s->site = site;
         s->ctx = ctx;
         s->pos = t->loglen;
-        return; /* first visit: observe one full period before blocking */
+        return; /* first visit: the period starts here */
     }
-    int pos = s->pos;
-    s->pos = t->loglen;
     if (t->logovf)
         return;
+    /* close the current period and remember its signature */
+    int pstart = s->pos;
+    s->pos = t->loglen;
+    memmove(&s->sig[1], &s->sig[0], sizeof(s->sig[0]) * (2 * CYCMAX - 1));
+    memmove(&s->start[1], &s->start[0], sizeof(s->start[0]) * (2 * CYCMAX - 1));
+    s->sig[0] = period_signature(t, pstart, t->loglen);
+    s->start[0] = pstart;
+    if (s->nper < 2 * CYCMAX)
+        s->nper++;
+    /* smallest k such that the last k periods repeat the k before them */
+    int k = 0;
+    for (int c = 1; c <= CYCMAX && 2 * c <= s->nper; c++) {
+        int same = 1;
+        for (int i = 0; i < c; i++)
+            if (s->sig[i] != s->sig[i + c])
+                same = 0;
+        if (same) {
+            k = c;
+            break;
+        }
+    }
+    if (!k)
+        return; /* still making (apparent) progress */
+    int pos = s->start[k - 1];
     /* build the watch set from log[pos..loglen) */
     t->nwatch = 0;
     t->clockwatch = 0;
-    int net_identity = 1;
     for (int i = pos; i < t->loglen; i++) {
         logent *e = &t->log[i];
         if (e->isclock) {
@@ -810,7 +857,7 @@ void abtmc_spin_hint(int site, const void *ctx)
                 break;
         if (j == t->nwatch) {
             if (t->nwatch >= WATCHMAX)
-                return; /* period too long: do not block */
+                return; /* cycle too long: do not block */
             t->watch[j].addr = e->addr;
             t->watch[j].size = e->size;
             t->nwatch++;
@@ -818,11 +865,10 @@ void abtmc_spin_hint(int site, const void *ctx)
         t->watch[j].val = e->after;
     }
     /* net identity of own writes: value before first write == value now */
-    for (int j = 0; j < t->nwatch && net_identity; j++) {
+    for (int j = 0; j < t->nwatch; j++) {
         const void *a = t->watch[j].addr;
-        int wrote = 0;
+        int wrote = 0, have = 0;
         uint64_t first_before = 0;
-        int have = 0;
         for (int i = pos; i < t->loglen; i++) {
             logent *e = &t->log[i];
             if (e->isclock || e->addr != a)
@@ -834,12 +880,10 @@ void abtmc_spin_hint(int site, const void *ctx)
             if (e->wrote)
                 wrote = 1;
         }
-        if (wrote && first_before != readval(a, t->watch[j].size))
-            net_identity = 0;
-    }
-    if (!net_identity) {
-        wake_event();
-        return;
+        if (wrote && first_before != readval(a, t->watch[j].size)) {
+            wake_event();
+            return; /* the cycle changed something: progress */
+        }
     }
     if (t->nwatch == 0 && !t->clockwatch) {
         /* nothing hooked was observed: wait for any progress marker */
@@ -855,8 +899,8 @@ void abtmc_spin_hint(int site, const void *ctx)
     t->forced = 0;
     t->pkind = K_LIBC;
     if (abtmc_g.trace)
-        fprintf(stderr, "[t%d] spin-block site=%d nwatch=%d clk=%d\n", t->id,
-                site, t->nwatch, t->clockwatch);
+        fprintf(stderr, "[t%d] spin-block site=%d cycle=%d nwatch=%d clk=%d\n",
+                t->id, site, k, t->nwatch, t->clockwatch);
     schedule();
     t->wk = W_NONE;
     t->h = abtmc_mix(t->h, 0x6000 + site);
